@@ -262,6 +262,15 @@ def make_bmc(lock_cls, K, depth, rounds, step_delay, hold_bound, crash=False, ex
             res["inconclusive"] = (f"call-site quotient of {lock_cls}.append_logs rejected: {aut['conflicts']} nondeterministic merges, "
                                    f"clock flow ok={aut['flow_ok']} (behaviour depends on state that is neither call site nor model state)")
             return res
+        pre_cex = []
+        if aut["io_outside_lock"]:
+            # some path delivers journal bytes outside the lock-held window: confirm on the real code (one worker, one append)
+            viol, _ = L.replay(lock_cls, [{"p": 0, "call": "create", "now": 0.0}, {"p": 0, "call": "rename", "now": 0.0}], 1, False, 1)
+            if viol:
+                pre_cex.append({"key": f"{lock_cls}:journal-io-outside-lock", "pre_replayed": True, "values": {}, "choices": [], "notes": {"calls": [str(x) for x in aut["io_outside_lock"]]},
+                                "kind": "path-property", "message": f"append_logs delivers journal bytes outside the lock: {viol}; calls {aut['io_outside_lock']}"})
+            else:
+                res["inconclusive"] = f"extracted paths deliver bytes outside the lock ({aut['io_outside_lock']}) but the replay did not confirm it"
         r = L.bmc(aut, K, depth, crash=crash, rounds=rounds, step_delay=step_delay, hold_bound=hold_bound, timeout_ms=1500000)
         res["queries"] = r["queries"]
         res["solver_s"] = r["solver_s"]
@@ -269,8 +278,8 @@ def make_bmc(lock_cls, K, depth, rounds, step_delay, hold_bound, crash=False, ex
         inv = {v: k for k, v in aut["nodes"].items()}
         res["samples"] = [{"automaton": [f"{inv[n][0]}@{[x for x in inv[n][1] if isinstance(x, int)][:2]}" for n in sorted(aut["edges"])][:14]}]
         out = r["result"]
-        cex = []
-        validated = 0
+        cex = list(pre_cex)
+        validated = len(pre_cex)
         for prop in ("mutual_exclusion", "release_raises"):
             if out[prop] == "sat":
                 tr = out[prop + "_trace"]
